@@ -120,7 +120,13 @@ def _worker(args):
             warm()
         out = []
         for i in range(lo, hi):
-            out.append(fn(base, i, **extra))
+            try:
+                out.append(fn(base, i, **extra))
+            except HarnessError:
+                raise
+            except Exception:     # noqa - reported per run, see cli
+                import traceback
+                out.append({'index': i, 'crash': traceback.format_exc()})
         return out
     finally:
         faulthandler.cancel_dump_traceback_later()
